@@ -101,7 +101,9 @@ def make_case(cid, rng, mix):
     flavour = rng.choices(['func', 'module', 'class'], weights=mix.get('flavours', [5, 3, 2]))[0]
     c03 = rng.random() < mix.get('c03', 0.5)
     g = prog.Gen(rng, flavour=flavour, c03=c03, depth=rng.choice([2, 3, 3]), globals_=GLOBALS, builtins_=BUILTINS,
-                 names=prog.NAMES if rng.random() < 0.8 else ['a', 'b'])
+                 names=rng.choice([prog.NAMES, prog.NAMES, ['a', 'b'], ['a', 'b', 'c', 'd', 'e'], ['a', 'b', 'c', 'd', 'e', 'f']]))
+    g.prologue = mix.get('prologue', rng.choice([0.55, 0.3, 0.15]))
+    g.single = rng.random() < mix.get('single', 0.5)
     body, nsites, nreads = prog.number(g.program())
     locals_ = sorted(prog.bound_names(body))
     pre = []
